@@ -21,6 +21,7 @@ import (
 	"fmt"
 	"io"
 	"net/http"
+	"reflect"
 	"strings"
 	"time"
 
@@ -678,6 +679,14 @@ func (d KeySetDesc) Build() oidc.KeySet {
 		}
 		if len(d.Cached) > 0 {
 			_, _ = ks.VerifySignature(context.Background(), warm)
+			// The library hands the fetch result to the caller before its download
+			// goroutine has stored the cache and cleared the in-flight marker (that
+			// window is C13's subject). C02 models the sequential view, so wait
+			// until the key set is idle before the rotation and the measured call.
+			f := reflect.ValueOf(ks).Elem().FieldByName("inflight")
+			for i := 0; f.IsValid() && !f.IsNil() && i < 100000; i++ {
+				time.Sleep(20 * time.Microsecond)
+			}
 		}
 		rt.body = jwksBody(d.Served)
 		rt.fail = d.ServedFail
